@@ -34,7 +34,7 @@ structure Stat (K : SCtx) (k : Ctx) (sub : Bool) : Prop where
   kign : K.ign = true → k.ign = true
   knign : K.e = true → K.ign = false → K.unk = false → k.ign = false
   kfn : K.fn = true → k.inFunc = true
-  depth : K.tl.length = k.depth
+  depth : K.tl.length ≤ k.depth
   top : K.top = true → sub = false
 
 /-- Facts about a runner state at a position. -/
@@ -95,7 +95,7 @@ def Post (K : SCtx) (k : Ctx) (sub : Bool) (le q : Prop) (s s' : St) : Flow → 
   | .exit, e' =>
     s'.exit.exiting = true ∧ s'.exit.returning = false ∧ e'.status = s'.exit.code ∧
       e'.out = s'.out ∧ e'.trapExit = s'.callbackExit ∧ (sub = true → s'.callbackExit = .nil) ∧
-      s'.handlingTrap = false ∧ s'.callbackErr = .nil
+      s'.handlingTrap = false ∧ s'.callbackErr = .nil ∧ NoPending s'
 
 /-- Both sides run out of fuel together, or both return related results. -/
 def Rel (P : St → Flow → Env → Prop) : Option St → Res → Prop
